@@ -302,21 +302,110 @@ def local_of(op):
     return None
 
 
-def ok_edge_of_try(body, call):
-    """For `_r = g(..)` followed by `Try::branch(_r)` and a switch: (switch_bb, continue_target, break_target)."""
-    # find a Try::branch call whose arg0 is call.dest local
-    dl = call.dest["l"]
-    for c in body.calls():
-        if c.is_("Try::branch") and c.args:
+# how the "success" tag of a fallible value changes when it goes through an adaptor: name -> (kind after, map)
+_OK_ADAPTORS = {
+    "Result::map_err": None, "Result::map": None, "Result::inspect_err": None, "Result::inspect": None,
+    "Option::map": None, "Option::inspect": None, "Result::as_ref": None, "Result::as_mut": None, "Option::as_ref": None,
+    "Option::as_mut": None, "Result::copied": None, "Result::cloned": None, "Option::copied": None, "Option::cloned": None,
+    "Result::ok": {"Ok": "Some", "Err": "None"}, "Result::err": {"Ok": "None", "Err": "Some"},
+    "Option::ok_or": {"Some": "Ok", "None": "Err"}, "Option::ok_or_else": {"Some": "Ok", "None": "Err"},
+    "Try::branch": {"Ok": "Continue", "Err": "Break", "Some": "Continue", "None": "Break"},
+    "Result::is_ok": {"Ok": 1, "Err": 0}, "Result::is_err": {"Ok": 0, "Err": 1},
+    "Option::is_some": {"Some": 1, "None": 0}, "Option::is_none": {"Some": 0, "None": 1},
+}
+
+
+def ok_edges(body, call, ok="Ok"):
+    """Every branch that tests the outcome of the fallible `call` (a `Result`, or an `Option` with ok="Some"),
+    whatever the idiom: `?`, `match`, `if let`, `let .. else`, `.is_ok()`, `.is_err()`, through `map_err` / `map` /
+    `inspect_err` / `ok()` / `ok_or(..)` chains, plain moves and references.
+    -> [(switch_bb, success_target, failure_target)] (targets may be None when an edge is unreachable)."""
+    err = {"Ok": "Err", "Some": "None"}[ok]
+    out = []
+    seen = set()
+    work = [(call.dest["l"], ok, err)]
+    conds_ = conds(body)
+    calls = body.calls()
+    while work:
+        l, okt, errt = work.pop()
+        if (l, okt) in seen or len(seen) > 40:
+            continue
+        seen.add((l, okt))
+        # branches on this value
+        for cd in conds_:
+            if cd.kind == "discr" and cd.place is not None and cd.place["l"] == l and all(p == "*" for p in cd.place["p"]) and isinstance(okt, str):
+                vt = cd.variant_targets(body.prog)
+                if okt in vt or errt in vt:
+                    out.append((cd.bb, vt.get(okt), vt.get(errt)))
+            elif cd.kind in ("bool", "int") and isinstance(okt, int):
+                pl = op_place(getattr(cd, "operand", None) or {})
+                if pl is not None and pl["l"] == l and not pl["p"]:
+                    tt, ft = cd.true_target(), cd.false_target()
+                    out.append((cd.bb, tt if okt == 1 else ft, ft if okt == 1 else tt))
+            elif cd.kind == "call" and isinstance(okt, str):
+                # switch directly on `x.is_ok()`
+                c = cd.call
+                m = _OK_ADAPTORS.get(c.decl_s)
+                pl = op_place(c.args[0]) if c.args else None
+                if m and pl is not None and _base_local(body, pl) == l and isinstance(m.get(okt), int):
+                    tt, ft = cd.true_target(), cd.false_target()
+                    out.append((cd.bb, tt if m[okt] == 1 else ft, ft if m[okt] == 1 else tt))
+        # where the value goes next
+        for bi, blk in enumerate(body.blocks):
+            if blk.get("cleanup"):
+                continue
+            for st in blk["stmts"]:
+                if st["k"] != "assign" or st["place"]["p"]:
+                    continue
+                rv = st["rv"]
+                if rv["k"] in ("use", "cast") and (op_place(rv["a"][0]) or {}).get("l") == l and not (op_place(rv["a"][0]) or {"p": [1]})["p"]:
+                    work.append((st["place"]["l"], okt, errt))
+                elif rv["k"] in ("ref", "rawptr") and rv["place"]["l"] == l and not rv["place"]["p"]:
+                    work.append((st["place"]["l"], okt, errt))
+        for c in calls:
+            if not c.args:
+                continue
             pl = op_place(c.args[0])
-            if pl is not None and pl["l"] == dl:
-                # switch in target block
-                tb = c.target
-                if tb is not None and body.term(tb)["k"] == "switch":
-                    cd = Cond(body, tb)
-                    vt = cd.variant_targets(body.prog)
-                    return tb, vt.get("Continue"), vt.get("Break")
-    return None
+            if pl is None or pl["l"] != l or any(p != "*" for p in pl["p"]):
+                continue
+            if c.decl_s in _OK_ADAPTORS and isinstance(okt, str):
+                m = _OK_ADAPTORS[c.decl_s]
+                if m is None:
+                    work.append((c.dest["l"], okt, errt))
+                elif okt in m:
+                    work.append((c.dest["l"], m[okt], m[errt]))
+    # de-duplicate
+    uniq = []
+    for e in out:
+        if e not in uniq:
+            uniq.append(e)
+    return uniq
+
+
+def _base_local(body, pl):
+    """Local a reference operand ultimately points at (through `&x` temporaries)."""
+    l = pl["l"]
+    for _ in range(4):
+        ds = body.defs().get(l, [])
+        if len(ds) == 1 and ds[0][2] == "assign" and ds[0][3]["rv"]["k"] in ("ref", "rawptr") and not ds[0][3]["rv"]["place"]["p"]:
+            l = ds[0][3]["rv"]["place"]["l"]
+        elif len(ds) == 1 and ds[0][2] == "assign" and ds[0][3]["rv"]["k"] == "use" and op_place(ds[0][3]["rv"]["a"][0]) is not None and not op_place(ds[0][3]["rv"]["a"][0])["p"]:
+            l = op_place(ds[0][3]["rv"]["a"][0])["l"]
+        else:
+            break
+    return l
+
+
+def ok_edge_of_try(body, call):
+    """(switch_bb, success_target, failure_target) of the first branch testing the outcome of `call` - `?` or any
+    other idiom (see ok_edges); None if the outcome is never tested."""
+    es = ok_edges(body, call, ok="Ok") or ok_edges(body, call, ok="Some")
+    # prefer the branch closest to the call (smallest block index reachable from it)
+    if not es:
+        return None
+    reach = body.reachable_from(call.bb)
+    es = [e for e in es if e[0] in reach] or es
+    return es[0]
 
 
 def loc(body, bb, si=None):
